@@ -26,7 +26,14 @@ is invisible on random data.  check_impl decrypts ECB/CBC ciphertexts with its o
 `ctrseq <cipher> <n> <key> <counter|-> <step> …` lines: ONE CTR object through a history of public calls (enc, dec, dec of the latest
 ciphertext, counter.setup, assignment of a new DefaultCounter, counter.reset, counter()); the driver threads Model.Mode.CTR.Obj
 through the steps (model column) and keeps only the counter block in force for Spec.Mode.ctrOf (spec column); check_impl evaluates
-SP 800-38A CTR on the counter block in force at each step with its own bookkeeping."""
+SP 800-38A CTR on the counter block in force at each step with its own bookkeeping.
+
+`modeseq <mode> <cipher> <n> <key> <iv|-> <padding> <step> …` lines: ONE ECB / CBC / CTS_ECB / CTS_CBC object through a history of
+enc / dec calls (`e:<M>`, `d:<C>`, `d:#k` = decrypt what step k returned): messages of DIFFERENT length residues between the steps,
+earlier ciphertexts decrypted after later encryptions, decryption on an object that has never encrypted, refused calls in between.
+The driver threads Model.Mode.Seq.Obj (the state of `self.pad`) through the steps; the spec column is SP 800-38A per step; check_impl
+judges every step as if it were the only call on a new object and requires dec(#k) = M_k.  Nullpadding (whose `remove` reads the pad
+count of the latest enc: known finding C10-nullpad-remove) is compared code <-> model only."""
 from props.common import *
 
 ID = 'C05'
@@ -38,7 +45,9 @@ RULE = ('op lines = (mode, cipher, block length, key, IV/counter, padding, enc|d
         'admissible paddings, counter halves at 2^k-1 / all-ones (16/32/64-byte halves for Threefish), SP 800-38A appendix F vectors, '
         'damaged paddings, malformed lengths / keys / tweaks; ciphertexts and messages that repeat a block in every position pattern '
         '(raw dec lines, messages crafted so that the ciphertext repeats a block); histories of calls on ONE CTR object (enc/dec, '
-        'counter.setup / assignment / reset / call in between, short-long-short messages); distinct lines; non-trivial = the '
+        'counter.setup / assignment / reset / call in between, short-long-short messages); histories of enc / dec calls on ONE ECB / CBC / CTS '
+        'object (messages of different length residues, earlier ciphertexts decrypted after later encryptions, decryption before any '
+        'encryption, refused calls in between; every padding); distinct lines; non-trivial = the '
         'implementation returned a value')
 TRUSTED = ['Spec.Mode / Spec.ModePad are trusted as renderings of SP 800-38A (+Addendum) and PKCS#7 / X9.23 / ISO 9797-1 method 2 '
            '(Spec.ModePad is proved equal to Spec.Padding of C09 on byte strings; appendix F vectors are checked against Spec.Mode over Spec.Aes)',
@@ -237,6 +246,75 @@ def run_seq(line):
     return ';'.join(out)
 
 
+# ---- `modeseq <mode> <cipher> <blockbytes> <key> <iv or -> <padding> <step> …`: ONE ECB/CBC/CTS object through a history of calls
+SEQ_MODES = ('ECB', 'CBC', 'CTS_ECB', 'CTS_CBC')
+
+def parse_mseq(line):
+    t = line.split()
+    mode, cid, n, key, iv, pad = t[1], t[2], int(t[3]), [unhx(k) for k in t[4].split(',')], opt(t[5]), t[6]
+    if mode not in SEQ_MODES: raise RuntimeError('mode ' + mode)
+    steps = []
+    for st in t[7:]:
+        if st.startswith('e:'): steps.append(('e', unhx(st[2:])))
+        elif st.startswith('d:#'): steps.append(('r', int(st[3:])))
+        elif st.startswith('d:'): steps.append(('d', unhx(st[2:])))
+        else: raise RuntimeError('step ' + st)
+    if not steps: raise RuntimeError('no step')
+    return mode, cid, n, key, iv, pad, steps
+
+def mseq_line(mode, cid, n, keys, iv, pad, steps):
+    toks = ['e:' + hx(st[1]) if st[0] == 'e' else 'd:' + hx(st[1]) if st[0] == 'd' else 'd:#%d' % st[1] for st in steps]
+    return 'modeseq %s %s %d %s %s %s %s' % (mode, cid, n, ','.join(hx(k) for k in keys), hxo(iv), pad, ' '.join(toks))
+
+def run_mseq(line):
+    mode, cid, n, key, iv, pad, steps = parse_mseq(line)
+    if cid not in TOYS and not token_ok(cid, n, key): raise RuntimeError('block length token does not match the cipher')
+    if (iv is not None) != (mode in ('CBC', 'CTS_CBC')): raise RuntimeError('iv token')
+    box = []
+    if guarded(lambda: box.append(make_mode(mode, cipher_obj(cid, n, key), iv, pad)) or 'ok') == 'ERR': return 'ERR'
+    obj, outs = box[0], []
+    for st in steps:
+        def go():
+            if st[0] == 'e': return hx(obj.enc(st[1]))
+            if st[0] == 'd': return hx(obj.dec(st[1]))
+            k = st[1]
+            prev = outs[k - 1] if 1 <= k <= len(outs) else 'ERR'
+            return hx(obj.dec(b'' if prev == 'ERR' else unhx(prev)))
+        outs.append(guarded(go))
+    return ';'.join(outs)
+
+def check_mseq(line, res):
+    """every step is judged as if it were the ONLY call on a new, equally configured object (the single-call predicates of
+    `mode … enc` / `mode … dec` lines: SP 800-38A reference, length laws, block-by-block decryption, padding taken off or refused),
+    and dec(#k) of an in-domain enc step k must give that step's message back, whatever the object did in between"""
+    mode, cid, n, key, iv, pad, steps = parse_mseq(line)
+    if n < 1 or pad not in PADS: return None            # Nullpadding: code <-> model only (known finding C10-nullpad-remove)
+    t = line.split()
+    head = ['mode'] + t[1:7]
+    adm = key_ok(cid, n, key) and ((iv is None) if mode in ('ECB', 'CTS_ECB') else (iv is not None and len(iv) == n))
+    if not adm: return None if res == 'ERR' else 'modeseq: a constructor accepted a key / IV it must refuse'
+    if res == 'ERR' and len(steps) > 1: return 'modeseq: the constructor raised for an admissible configuration'
+    outs = res.split(';')          # (a one-step line: `ERR` is the result of the step)
+    if len(outs) != len(steps): return 'modeseq: %d results for %d steps' % (len(outs), len(steps))
+    for i, (st, got) in enumerate(zip(steps, outs)):
+        where = 'modeseq step %d of %d on one object (%s)' % (i + 1, len(steps), t[7 + i][:40])
+        if st[0] == 'e':
+            r = check_impl(' '.join(head + ['enc', hx(st[1])]), got)
+            if r: return '%s: %s' % (where, r)
+            continue
+        if st[0] == 'd': X = st[1]
+        else:
+            k = st[1]
+            prev = outs[k - 1] if 1 <= k <= i else 'ERR'
+            X = b'' if prev == 'ERR' else unhx(prev)
+            if 1 <= k <= i and steps[k - 1][0] == 'e' and prev != 'ERR' and in_domain(mode, n, key, iv, pad, steps[k - 1][1], cid):
+                if got != hx(steps[k - 1][1]):
+                    return '%s: dec(ciphertext of step %d) = %s, the message was %s' % (where, k, got, hx(steps[k - 1][1]))
+        r = check_impl(' '.join(head + ['dec', hx(X)]), got)
+        if r: return '%s: %s' % (where, r)
+    return None
+
+
 def rev_blocks(n, X, keep):
     """X with its whole blocks in reverse order (keep: the first block - the IV - stays in front; a partial tail stays behind)"""
     head = X[:n] if keep else b''
@@ -246,6 +324,7 @@ def rev_blocks(n, X, keep):
 
 def run_impl(line):
     if line.startswith('ctrseq '): return run_seq(line)
+    if line.startswith('modeseq '): return run_mseq(line)
     op, mode, cid, n, key, iv, pad, verb, msg = parse(line)
     if op == 'mode':
         if cid not in TOYS and not token_ok(cid, n, key): raise RuntimeError('block length token does not match the cipher')
@@ -433,6 +512,7 @@ def check_seq(line, res):
 
 def check_impl(line, res):
     if line.startswith('ctrseq '): return check_seq(line, res)
+    if line.startswith('modeseq '): return check_mseq(line, res)
     op, mode, cid, n, key, iv, pad, verb, msg = parse(line)
     bad = lambda why: '%s %s %s: %s' % (op, mode, verb, why)
     if op == 'modert':
@@ -1063,6 +1143,85 @@ def ctrseq_real_cases(tier, rng):
         yield from seq_cases_for(tier, rng, cid, n, ks, ktag, budget=b if quick else max(1, b - 1))
 
 
+# ---------------------------------------------------------------------------------------------
+# one ECB / CBC / CTS object through a history of calls (`modeseq`): what the object keeps from a call (the padding object's
+# state: the pad count of the LATEST message) shows only when a later call on the SAME object meets a message / ciphertext of
+# another length residue - enc(M1); enc(M2); dec(C1) - or when the object decrypts before it has ever encrypted.
+def mseq_lengths(rng, mode, pad, n, count):
+    """`count` admissible message lengths with pairwise different residues mod n (ECB/CBC without padding: block counts)"""
+    if mode in ('ECB', 'CBC') and pad == 'nopadding':
+        return [q * n for q in rng.sample([1, 2, 3, 4], count)]
+    res = rng.sample(sorted({0, 1, 2, n // 2, n - 2, n - 1} | {rng.randrange(n), rng.randrange(n)}), count)
+    lo = 1 if mode.startswith('CTS') else 0
+    return [rng.choice([lo, lo, 1, 2]) * n + r for r in res]
+
+def mseq_cases_for(tier, rng, cid, n, ks, ktag, thin=False):
+    T = lambda t: 'modeseq/%s/%s' % ('toy' if cid in TOYS else ktag, t)
+    msg = lambda L: rb(rng, L)
+    for mode in SEQ_MODES:
+        pads = list(admissible(mode)) + (['Nullpadding'] if mode in ('ECB', 'CBC') and cid in TOYS else [])
+        for pad in pads:
+            iv = rb(rng, n) if mode in ('CBC', 'CTS_CBC') else None
+            mk = lambda steps, iv=iv: mseq_line(mode, cid, n, ks, iv, pad, steps)
+            tag = lambda t: T('%s/%s/%s' % (mode, pad, t))
+            refpad = pad if pad in PADS else 'pkcs7'
+            E = cipher_obj(cid, n, ks).enc
+            cref = lambda M, iv2=None: reference(mode, E, n, iv2 if iv2 is not None else iv, refpad, M)
+            for rep in range(1 if thin else 3):
+                L = mseq_lengths(rng, mode, pad, n, 3)
+                M1, M2, M3 = msg(L[0]), msg(L[1]), msg(L[2])
+                # A. encrypt two / three messages of different residues, then decrypt the EARLIER ciphertexts
+                yield mk([('e', M1), ('e', M2), ('r', 1), ('r', 2)]), tag('enc-enc-dec-earlier')
+                if thin and rep == 0 and rng.randrange(2): continue
+                yield mk([('e', M1), ('e', M2), ('e', M3), ('r', 2), ('r', 1), ('r', 3), ('r', 1)]), tag('enc3-dec-any-order')
+                # B. an object that has never encrypted decrypts (a ciphertext made by the reference, another IV), encrypts a
+                #    message of another residue, decrypts the first ciphertext again
+                C1 = cref(M1, rb(rng, n) if iv is not None else None)
+                yield mk([('d', C1), ('e', M2), ('d', C1), ('r', 2), ('e', M3), ('d', C1)]), tag('dec-before-any-enc')
+                # C. enc/dec pairs interleaved, the first ciphertext once more at the end
+                yield mk([('e', M1), ('r', 1), ('e', M2), ('r', 1), ('r', 3), ('e', M3), ('r', 1), ('r', 6), ('r', 3)]), tag('interleaved')
+                if thin: continue
+                # D. refused calls in between: a ciphertext cut short / one block of noise / (no padding, stealing) a message
+                #    outside the domain; then the earlier ciphertexts again
+                bad = []
+                if pad == 'nopadding': bad.append(('e', msg(n - 1) if mode.startswith('CTS') else msg(n + 3)))
+                bad.append(('d', cref(M2)[:-1]))
+                bad.append(('d', msg(n * (2 if iv is not None else 1))))
+                for b in bad:
+                    yield mk([('e', M1), ('e', M2), b, ('r', 1), ('r', 2), ('r', 3)]), tag('refused-call-between')
+                yield mk([bad[-1], ('e', M1), bad[0], ('r', 2), ('e', M3), ('r', 2)]), tag('refused-call-first')
+            if thin: continue
+            # E. seeded random histories
+            for _ in range(4 if tier == 'quick' else 40):
+                steps = []
+                for i in range(rng.randrange(3, 10)):
+                    k = rng.choice('eeedrrrr') if steps else rng.choice('eed')
+                    if k == 'e': steps.append(('e', msg(rng.choice(mseq_lengths(rng, mode, pad, n, 2) + [rng.randrange(0, 3 * n)]))))
+                    elif k == 'd': steps.append(('d', rng.choice([cref(msg(mseq_lengths(rng, mode, pad, n, 1)[0])), msg(n * rng.randrange(1, 4)), msg(rng.randrange(0, 3 * n))])))
+                    else: steps.append(('r', rng.randrange(1, len(steps) + 1)))
+                yield mk(steps), tag('random-history')
+
+def modeseq_cases(tier, rng):
+    quick = tier == 'quick'
+    for n in ([8, 16, 32] if quick else [8, 16, 32, 64, 128, 6, 24]):
+        for cid in ('rot', 'aff'):
+            yield from mseq_cases_for(tier, rng, cid, n, [rb(rng, n)], 'toy')
+    # constructors that refuse: the whole line is ERR
+    for mode in ('CBC', 'CTS_CBC'):
+        for ivl in (0, 7, 9):
+            yield mseq_line(mode, 'rot', 8, [rb(rng, 8)], rb(rng, ivl), 'nopadding', [('e', rb(rng, 16)), ('r', 1)]), 'modeseq/malformed/iv-length'
+    yield mseq_line('ECB', 'DES', 8, [rb(rng, 7)], None, 'pkcs7', [('e', rb(rng, 5)), ('r', 1)]), 'modeseq/malformed/key'
+
+def modeseq_real_cases(tier, rng):
+    quick = tier == 'quick'
+    keys = [('AES', 16, [rb(rng, 16)], 'AES-128'), ('DES', 8, [rb(rng, 8)], 'DES')]
+    if not quick:
+        keys += [('AES', 16, [rb(rng, 32)], 'AES-256'), ('TDEA', 8, [rb(rng, 24)], 'TDEA-string24'), ('SERPENT', 16, [rb(rng, 16)], 'Serpent-128'),
+                 ('THREEFISH', 32, [rb(rng, 32), rb(rng, 16)], 'Threefish-256')]
+    for cid, n, ks, ktag in keys:
+        yield from mseq_cases_for(tier, rng, cid, n, ks, ktag, thin=quick)
+
+
 REAL = []         # ciphers without a Lean model (summary lines `modert`): none any more
 
 def real_cases(tier, rng):
@@ -1148,6 +1307,8 @@ def cases(tier, rng):
             yield from repeat_real_cases('quick', rng)
             yield from seq_cases_for('quick', rng, rng.choice(['rot', 'aff']), n, [rb(rng, n)], 'toy')
             yield from ctrseq_real_cases('quick', rng)
+            yield from mseq_cases_for('quick', rng, rng.choice(['rot', 'aff']), n, [rb(rng, n)], 'toy')
+            yield from modeseq_real_cases('quick', rng)
         return
     sizes = [8, 16, 32, 64, 128]
     yield from toy_cases(tier, rng, sizes)
@@ -1158,10 +1319,11 @@ def cases(tier, rng):
     yield from xd_toy_cases(tier, rng)
     yield from repeat_toy_cases(tier, rng, [8, 16, 32] if tier == 'quick' else sizes)
     yield from ctrseq_cases(tier, rng)
+    yield from modeseq_cases(tier, rng)
     yield from one_object_cases(tier, rng, [8, 16] if tier == 'quick' else [8, 16, 32, 64, 128])
     yield from random_cases(tier, rng, 4000 if tier == 'quick' else 60000)
     real = (list(real_mode_cases(tier, rng)) + list(real_dec_cases(tier, rng)) + list(real_malformed_cases(tier, rng)) + list(real_cases(tier, rng))
-            + list(threefish_cases(tier, rng)) + list(repeat_real_cases(tier, rng)) + list(ctrseq_real_cases(tier, rng)))
+            + list(threefish_cases(tier, rng)) + list(repeat_real_cases(tier, rng)) + list(ctrseq_real_cases(tier, rng)) + list(modeseq_real_cases(tier, rng)))
     rng.shuffle(real)              # lines of very different cost: mix them so that the worker chunks are balanced
     yield from real
     if tier == 'thorough':
@@ -1182,6 +1344,19 @@ def shrink(line):
                 yield ' '.join(head + steps[:i] + [st[:-2]] + steps[i + 1:])
                 yield ' '.join(head + steps[:i] + [st[:3] + st[5:]] + steps[i + 1:])
         return
+    if t[0] == 'modeseq':
+        head, steps = t[:7], t[7:]
+        ref = lambda st: int(st[3:]) if st.startswith('d:#') else None
+        for i in range(len(steps)):                       # drop a step nobody refers to (later references move down)
+            if len(steps) > 1 and all(ref(st) != i + 1 for st in steps[i + 1:]):
+                rest = [('d:#%d' % (ref(st) - 1)) if ref(st) is not None and ref(st) > i + 1 else st for st in steps[i + 1:]]
+                yield ' '.join(head + steps[:i] + rest)
+        for i, st in enumerate(steps):                    # shorten a message / ciphertext by a block or a byte
+            n = int(t[3])
+            if st[:3] in ('e:x', 'd:x'):
+                if len(st) > 3 + 2 * n: yield ' '.join(head + steps[:i] + [st[:-2 * n]] + steps[i + 1:])
+                if len(st) > 3: yield ' '.join(head + steps[:i] + [st[:-2]] + steps[i + 1:])
+        return
     msg = t[-1]
     if len(msg) > 3:
         yield ' '.join(t[:-1] + ['x' + msg[3:]])
@@ -1200,7 +1375,11 @@ LEVEL_TEXT = ('Lean 4 theorems about Model.Mode (the hand-written mirror of crys
               'SP 800-38A reference and the appendix F vectors on the real code. One CTR object used repeatedly is modelled as a step machine '
               '(Model.Mode.CTR.Obj): its enc/dec results are proved to depend on the counter block in force and the message only '
               '(ctr_history_independent, ctr_after_setup, ctr_after_assign, ctr_obj_spec), and the stream drives the real object and the '
-              'machine through the same histories.')
+              'machine through the same histories. One ECB / CBC / CTS object used repeatedly is the step machine Model.Mode.Seq.Obj (the state of '
+              'its padding object): every call returns what it returns as the only call on a new object, for every padding scheme except '
+              'Nullpadding (modeseq_dec_ignores_pad_state, modeseq_history_independent), and dec of an EARLIER ciphertext after any calls in '
+              'between gives the message back (modeseq_ecb_dec_earlier, modeseq_cbc_dec_earlier, modeseq_cts_dec_earlier); the modeseq lines '
+              'drive the real object and the machine through the same histories (Nullpadding included, code <-> model).')
 LEVEL_NOTE = ('Trusted: Lean kernel; axioms within {propext, Classical.choice, Quot.sound}; Spec.Mode/Spec.ModePad as renderings of SP 800-38A, its '
               'addendum and the padding methods (Spec.ModePad proved equal to Spec.Padding on byte strings; appendix F.1.1/F.2.1/F.5.1 evaluated '
               'through Spec.Mode over Spec.Aes in the kernel); Spec.Aes/Des/Serpent/Threefish; extract.py/runcheck.py/props/C05.py. '
